@@ -272,6 +272,16 @@ Section Qi.
            end
     end.
 
+  (* the part of the verdict that checkSig = false skips: every carried key parses and the final key of
+     exactly the carried keys verifies the signature over this payload.  It depends on the transaction
+     alone (not on the UTXO set): this is what an entry of the pool's senders cache stands for *)
+  Definition qi_sig_ok (f : qfields) (keys : list pub) (sg : sig) : bool :=
+    forallb parse_ok keys &&
+    match final_key keys with
+    | None => false
+    | Some k => verify k (H (qi_signing_bytes f)) sg
+    end.
+
   (* the same with the lookup made explicit: input i names an outpoint and carries a key; the
      entry it is compared with is the one found under ITS OWN outpoint
      (rawdb.GetUTXOWithBatch(db, batch, txIn.PreviousOutPoint...) inside the loop body), for every
@@ -285,6 +295,73 @@ Section Qi.
              (oins : list (outpoint * pub)) (sg : sig) : qverdict :=
     qi_authorised chain check_sig f (qi_lookup utxo oins) sg.
 End Qi.
+
+(* ================= (e) the pool's senders cache and block processing ================= *)
+
+(* core/tx_pool.go: the Qi side of TxPool.  A transaction is named by its index in the case's universe:
+   every table below is keyed by tx.Hash() (qiTxFees by its first 16 bytes), which covers all signed
+   fields and the signature (Props: pool_cache_key_binds_signature, signing_covers_all_payload_fields).
+   senders is written only by sendersGoroutine from sendersCh, qiTxFees only by feesGoroutine from
+   feesCh; the model is taken at rest (both channels drained), which is what the harness observes. *)
+Section QiPool.
+  Variable pool_valid : N -> bool.          (* addQiTxs: outputs to active chains, ValidateQiTxInputs, ValidateQiTxOutputsAndSignature *)
+  Variable reinject_valid : N -> bool.      (* addQiTxsWithoutValidationLocked on a fee-cache miss: the two Validate functions only *)
+  Variable proc_ok : N -> bool -> bool.     (* ProcessQiTx tx checkSig *)
+
+  Record pstate := mkP { p_qp : list N;      (* qiPool *)
+                         p_fees : list N;    (* qiTxFees *)
+                         p_cache : list N }. (* senders: for a Qi tx "signature already verified" *)
+  Definition p_empty : pstate := mkP [] [] [].
+  Definition pmem (i : N) (l : list N) : bool := existsb (N.eqb i) l.
+  Definition prem (i : N) (l : list N) : list N := filter (fun j => negb (N.eqb i j)) l.
+
+  Inductive pop :=
+  | PAdd (l : list N)      (* AddRemotes / AddLocals -> addTxs -> addQiTxs *)
+  | PProc (l : list N)     (* StateProcessor.Process on a block holding the transaction *)
+  | PRemove (l : list N)   (* RemoveQiTxs *)
+  | PReorg (l : list N).   (* a block with l becomes the head, then a sibling without l: reset re-injects l *)
+
+  (* addTxs: a transaction already in qiPool (as of before the batch) is ErrAlreadyKnown; addQiTxs:
+     a transaction that fails validation is answered with its error and NOTHING is recorded; a valid one
+     enters qiPool and its hash is sent to sendersCh and feesCh.  Verdicts: 0 taken, 1 known, 2 refused *)
+  Definition padd_one (qp0 : list N) (acc : pstate * list N) (i : N) : pstate * list N :=
+    let '(st, res) := acc in
+    if pmem i qp0 then (st, res ++ [1])
+    else if pool_valid i then (mkP (i :: p_qp st) (i :: p_fees st) (i :: p_cache st), res ++ [0])
+    else (st, res ++ [2]).
+
+  (* reset -> addQiTxsWithoutValidationLocked: in qiPool: skipped; fee cached (it was validated before):
+     re-entered WITHOUT validation and its hash sent to sendersCh; otherwise validated (inputs, outputs,
+     signature - but not the active-chain test of addQiTxs) *)
+  Definition preinject_one (st : pstate) (i : N) : pstate :=
+    if pmem i (p_qp st) then st
+    else if pmem i (p_fees st) then mkP (i :: p_qp st) (p_fees st) (i :: p_cache st)
+    else if reinject_valid i then mkP (i :: p_qp st) (i :: p_fees st) (i :: p_cache st)
+    else st.
+
+  Definition b2n (b : bool) : N := if b then 1 else 0.
+
+  Definition premove_all (l : list N) (st : pstate) : pstate :=
+    mkP (fold_left (fun q i => prem i q) l (p_qp st)) (p_fees st) (p_cache st).
+
+  (* Process: senders[tx.Hash()] present (PeekSenderNoLock under SendersMu) => checkSig = false *)
+  Definition pstep (st : pstate) (op : pop) : pstate * list N :=
+    match op with
+    | PAdd l => fold_left (padd_one (p_qp st)) l (st, [])
+    | PProc l => (st, flat_map (fun i => let c := pmem i (p_cache st) in [b2n c; b2n (proc_ok i (negb c))]) l)
+    | PRemove l => (premove_all l st, [])
+    | PReorg l => (fold_left preinject_one l (premove_all l st), [])
+    end.
+
+  Fixpoint prun (st : pstate) (ops : list pop) : list (list N * pstate) :=
+    match ops with
+    | [] => []
+    | op :: r => let '(st', res) := pstep st op in (res, st') :: prun st' r
+    end.
+
+  Definition pfinal (st : pstate) (ops : list pop) : pstate :=
+    fold_left (fun s op => fst (pstep s op)) ops st.
+End QiPool.
 
 (* ================= correspondence cases ================= *)
 
@@ -341,16 +418,50 @@ Inductive case :=
 | CQiSignBytes (id : N) (f : qfields) (obs : bytes)
 | CCache (id : N) (t : qtx) (rec : option bytes) (h : list (cop * cobs))    (* history on one object *)
 | CQi (id : N) (chain : N) (check_sig : bool) (f : qfields)
-      (ins : list (bytes * bool * bool * option bytes)) (agg_ok sigbit rest_ok : bool) (obs_accept : bool).
+      (ins : list (bytes * bool * bool * option bytes)) (agg_ok sigbit rest_ok : bool) (obs_accept : bool)
+(* a history on one real TxPool: universe (per tx: fields, inputs, agg_ok, sigbit, rest_ok, active_ok), then per
+   operation the observed verdicts and the membership of every universe tx in senders / qiPool / qiTxFees *)
+| CPool (id : N) (chain : N) (txs : list (qfields * list (bytes * bool * bool * option bytes) * bool * bool * bool * bool))
+        (h : list (pop * (list N * list bool * list bool * list bool))).
 
 Definition qi_ins_of (l : list (bytes * bool * bool * option bytes)) : list (xpub * option xaddr) :=
   map (fun x => let '(a, scope, parses, e) := x in
                 ((a, scope, parses), option_map (fun b => (b, true)) e)) l.
 
+(* verdict of the Qi checks on universe transaction i with the given checkSig *)
+Definition x_pool_ok (chain : N) (txs : list (qfields * list (bytes * bool * bool * option bytes) * bool * bool * bool * bool))
+           (cs : bool) (i : N) : bool :=
+  match nth_error txs (N.to_nat i) with
+  | Some (f, ins, agg_ok, sigbit, rest_ok, _) =>
+      match x_qi chain cs f (qi_ins_of ins) agg_ok sigbit with QOk => rest_ok | _ => false end
+  | None => false
+  end.
+(* addQiTxs refuses a transaction with an output to an inactive chain before anything else *)
+Definition x_pool_active (txs : list (qfields * list (bytes * bool * bool * option bytes) * bool * bool * bool * bool)) (i : N) : bool :=
+  match nth_error txs (N.to_nat i) with
+  | Some (_, _, _, _, _, active_ok) => active_ok
+  | None => false
+  end.
+Definition pvec (n : nat) (l : list N) : list bool := map (fun k => pmem (N.of_nat k) l) (seq 0 n).
+Fixpoint bools_eqb (a b : list bool) : bool :=
+  match a, b with
+  | [], [] => true
+  | x :: a', y :: b' => Bool.eqb x y && bools_eqb a' b'
+  | _, _ => false
+  end.
+Fixpoint pobs_eqb (n : nat) (m : list (list N * pstate)) (o : list (list N * list bool * list bool * list bool)) : bool :=
+  match m, o with
+  | [], [] => true
+  | (res, st) :: m', (ores, oc, oq, ofe) :: o' =>
+      bytes_eqb res ores && bools_eqb (pvec n (p_cache st)) oc && bools_eqb (pvec n (p_qp st)) oq
+      && bools_eqb (pvec n (p_fees st)) ofe && pobs_eqb n m' o'
+  | _, _ => false
+  end.
+
 Definition case_id (c : case) : N :=
   match c with
   | CValidate id _ _ _ _ | CRecover id _ _ _ _ | CSignBytes id _ _ | CFullBytes id _ _
-  | CQiSignBytes id _ _ | CCache id _ _ _ | CQi id _ _ _ _ _ _ _ _ => id
+  | CQiSignBytes id _ _ | CCache id _ _ _ | CQi id _ _ _ _ _ _ _ _ | CPool id _ _ _ => id
   end.
 
 Definition case_ok (c : case) : bool :=
@@ -363,6 +474,10 @@ Definition case_ok (c : case) : bool :=
   | CCache _ t rec h => couts_eqb (x_crun rec t (None, false) (map fst h)) (map snd h)
   | CQi _ chain cs f ins agg_ok sigbit rest_ok obs =>
       Bool.eqb (match x_qi chain cs f (qi_ins_of ins) agg_ok sigbit with QOk => rest_ok | _ => false end) obs
+  | CPool _ chain txs h =>
+      pobs_eqb (length txs)
+        (prun (fun i => x_pool_active txs i && x_pool_ok chain txs true i) (x_pool_ok chain txs true)
+              (fun i cs => x_pool_ok chain txs cs i) p_empty (map fst h)) (map snd h)
   end.
 
 Definition mismatches (cs : list case) : list N :=
